@@ -372,27 +372,30 @@ CLAUSES = {"offset": body_offset, "readback": body_readback, "override": body_ov
 
 # ------------------------------------------------------------------ tasks
 
+def _cells():
+    return [(y, m) for y in range(Y0, Y1 + 1) for m in range(1, 13)]
+
+
 def tasks(tier, seed):
-    cells = [(y, m) for y in range(Y0, Y1 + 1) for m in range(1, 13)]
     out = []
     for clause, nsh in (("offset", 12), ("readback", 16), ("override", 20)):
         for i in range(nsh):
-            out.append(Task("t_cells", clause=clause, cells=cells[i::nsh]))
-    out.append(Task("t_years", clause="table", years=list(range(Y0, Y1 + 1))))
-    dy = list(range(-2000, 3001))
+            out.append(Task("t_cells", clause=clause, shard=i, of=nsh))
+    out.append(Task("t_years", clause="table", first=Y0, last=Y1, shard=0, of=1))
     for i in range(3):
-        out.append(Task("t_years", clause="deltat", years=dy[i::3]))
+        out.append(Task("t_years", clause="deltat", first=-2000, last=3000, shard=i, of=3))
     out.append(Task("t_anchors"))
     return out
 
 
-def t_cells(rec, clause, cells):
-    for y, m in cells:
+def t_cells(rec, clause, shard, of):
+    """Every `of`-th (year, month) cell of 1950..2100, starting at `shard`."""
+    for y, m in _cells()[shard::of]:
         rec.case(clause, {"year": y, "month": m})
 
 
-def t_years(rec, clause, years):
-    for y in years:
+def t_years(rec, clause, first, last, shard, of):
+    for y in range(first + shard, last + 1, of):
         rec.case(clause, {"year": y})
 
 
